@@ -39,9 +39,11 @@ Definition err_eqb (a b : err) : bool :=
 (* what was observed on the implementation *)
 Inductive observed :=
 | OErr (e : err)
-| OOk (cnt : Z)                          (* new_cell_key after the conversion loop *)
+| OOk (cnt : option Z)                   (* new_cell_key after the conversion loop; None
+                                            when the attribute could not be read *)
       (before : list (Z * cvol))         (* dic_vol_t4 after construct_volume_t4's loop *)
-      (sc cc : list (Z * Z))             (* the two caches, sorted by key *)
+      (sc cc : option (list (Z * Z)))    (* the two caches, sorted by key; None when the
+                                            cache attributes could not be read *)
       (final : list (Z * cvol))          (* after renumber/remove_empty/remove_unused *)
       (file : option (list (Z * cvol)))  (* what the writer emits (skipped cells dropped);
                                             None when the writer was not run *)
@@ -50,6 +52,14 @@ Inductive observed :=
 (* one case = a whole run of the Boolean pipeline *)
 Definition case :=
   (dict cell * dict (list Z) * (Z * Z) * list Z * Z * option (dict Z) * list Z * observed)%type.
+
+(* an observation that could not be made (None) is not compared *)
+Definition opt_cmp (a b : option (list (Z * Z))) : bool :=
+  match a, b with
+  | _, None => true
+  | Some x, Some y => list_eqb zz_eqb x y
+  | None, Some _ => false
+  end.
 
 (* the model's own answer, for replays *)
 Definition run_case (c : case) :=
@@ -61,7 +71,7 @@ Definition run_case (c : case) :=
       match prune u0 u1 rn (vols s) with
       | Err e => OErr e
       | Ok fin =>
-          OOk (cnt s) (ctable (vols s)) (canon_dict (scache s)) (canon_dict (ccache s))
+          OOk (Some (cnt s)) (ctable (vols s)) (Some (canon_dict (scache s))) (Some (canon_dict (ccache s)))
               (ctable fin) (Some (ctable (written skipped fin))) (Some (print_table skipped fin))
       end
   end.
@@ -70,7 +80,8 @@ Definition check_case (c : case) : bool :=
   match run_case c, snd c with
   | OErr e, OErr e' => err_eqb e e'
   | OOk n1 b1 sc1 cc1 f1 w1 l1, OOk n2 b2 sc2 cc2 f2 w2 l2 =>
-      (n1 =? n2) && table_eqb b1 b2 && list_eqb zz_eqb sc1 sc2 && list_eqb zz_eqb cc1 cc2
+      match n1, n2 with _, None => true | Some x, Some y => x =? y | None, Some _ => false end
+      && table_eqb b1 b2 && opt_cmp sc1 sc2 && opt_cmp cc1 cc2
       && table_eqb f1 f2
       && match w1, w2 with
          | _, None => true
